@@ -147,6 +147,28 @@ def r9_engine_contracts(a, tier):
         if not ok:
             rep.fail(m.qualname, f'naming:{name}', f'{name}() must bind once, after its block, with state.{want_attr}({"_AT_" if override else "name"}); it '
                      f'binds with {[ast.unparse(c) for c in calls]} ({"after" if after else "BEFORE"} the block)', m.loc)
+    # ------------------------------------------------------ the start rule
+    npc = a.ct.lookup('tatsu.peg.base.Grammar', 'new_parse_config')
+    for given, want in ((None, 'first'), ('other', 'other')):
+        seen: dict = {}
+
+        class _Cfg:
+            pass
+
+        def mkcfg(start):
+            c = Stub('tatsu.config.ParserConfig', semantics=None, start=start)
+            c._attrs['override_config'] = Hook(lambda other, c=c: c)
+            c._attrs['override'] = Hook(lambda c=c, **kw: mkcfg(kw.get('start', c._attrs['start']) if kw.get('start', None) is not None or 'start' not in kw else c._attrs['start']))
+            c._attrs['effective_start_rule_name'] = Hook(lambda c=c: c._attrs['start'])
+            return c
+        gme = Stub('tatsu.peg.base.Grammar', config=mkcfg(None), rules=(Obj(name='first'), Obj(name='other'), Obj(name='last')))
+        ret, raised = _run(ModelInterp(a, {'isinstance': Hook(lambda o, c: False)}), gme, npc, [], {'start': given})
+        got = ret._attrs.get('start') if isinstance(ret, Stub) else None
+        ok = raised is None and got == want
+        rep.add({'fn': 'Grammar.new_parse_config', 'start_given': given, 'rules': ['first', 'other', 'last'], 'start_used': got, 'want': want, 'ok': ok})
+        if not ok:
+            rep.fail(npc.qualname, f'start:{given}', f'a parse with start={given!r} on a grammar with the rules first, other, last starts at {got!r} (raised {raised}); required '
+                     f'{want!r}: the first rule unless a start rule is named', npc.loc)
     # ---------------------------------------------------------------- skip_to()
     fn = a.ct.lookup(CTX, 'skip_to')
     n = {'exp': 0, 'adv': 0}
@@ -309,7 +331,7 @@ def replay_contracts(a, rule_id):
     fn = a.ct.lookup(ENGINE, 'rule_call')
     for what, memo_value in (('a memoized result', hit), ('a memoized exception', boom)):
         me, states, evaluated = engine(memo_value, {})
-        ret, raised = _run(ModelInterp(a), me, fn, [Obj(name='r', is_lrec=False), 'KEY'])
+        ret, raised = _run(ModelInterp(a, {'RuleResult': Hook(lambda node, newpos: Stub(RR, node=node, newpos=newpos), q=RR)}), me, fn, [Obj(name='r', is_lrec=False, is_name=False, is_tokn=False), Obj(pos=5)])
         ops = [t[0] for t in states.trace]
         ok = not ops and not evaluated and ((ret is hit and raised is None) if memo_value is hit else (raised is not None and ret is None))
         rep.add({'fn': 'rule_call', 'memo_holds': what, 'returns': repr(ret), 'raised': raised, 'frame_ops': ops, 'body_evaluated': bool(evaluated), 'ok': ok})
@@ -321,7 +343,7 @@ def replay_contracts(a, rule_id):
     for what, stored in (('a result', hit), ('an exception', boom)):
         me, states, evaluated = engine(None, {'KEY': stored})
         me._attrs['rule_call'] = Hook(lambda ri, key: evaluated.append('rule_call') or hit)
-        ret, raised = _run(ModelInterp(a), me, fn, [Obj(name='r', is_lrec=True), 'KEY'])
+        ret, raised = _run(ModelInterp(a, {'RuleResult': Hook(lambda node, newpos: Stub(RR, node=node, newpos=newpos), q=RR)}), me, fn, [Obj(name='r', is_lrec=True), 'KEY'])
         ok = not evaluated and ((ret is hit and raised is None) if stored is hit else (raised is not None))
         rep.add({'fn': 'recursive_call', '_results_holds': what, 'returns': repr(ret), 'raised': raised, 'evaluated': evaluated, 'ok': ok})
         if not ok:
@@ -336,7 +358,7 @@ def replay_contracts(a, rule_id):
         order.append(('eval', 'KEY' in results))
         raise Raised('FailedParse', ast.Pass())
     me._attrs['rule_call'] = Hook(rc)
-    ret, raised = _run(ModelInterp(a), me, fn, [Obj(name='r', is_lrec=True), 'KEY'])
+    ret, raised = _run(ModelInterp(a, {'RuleResult': Hook(lambda node, newpos: Stub(RR, node=node, newpos=newpos), q=RR)}), me, fn, [Obj(name='r', is_lrec=True), 'KEY'])
     ok = order[:1] == [('eval', True)]
     rep.add({'fn': 'recursive_call', '_results_holds': 'nothing', 'seed_present_at_first_evaluation': order[:1], 'ok': ok})
     if not ok:
@@ -355,7 +377,7 @@ def replay_contracts(a, rule_id):
             return Stub(RR, node=f'N{len(seq)}', newpos=seq.pop(0))
         me._attrs['rule_call'] = Hook(rc2)
         me._attrs['save_result'] = Hook(lambda k, r, results=results, saved=saved: (results.__setitem__(k, r), saved.append(r._attrs['newpos']))[0])
-        ret, raised = _run(ModelInterp(a), me, fn, [Obj(name='r', is_lrec=True), 'KEY'])
+        ret, raised = _run(ModelInterp(a, {'RuleResult': Hook(lambda node, newpos: Stub(RR, node=node, newpos=newpos), q=RR)}), me, fn, [Obj(name='r', is_lrec=True), 'KEY'])
         got = ret._attrs['newpos'] if isinstance(ret, Stub) else None
         ok = raised is None and got == want
         rep.add({'fn': 'recursive_call', 'start': start, 'evaluations_end_at': positions, 'returns_result_ending_at': got, 'raised': raised, 'want': want, 'ok': ok})
